@@ -651,13 +651,15 @@ func onceCase(c *mon.Case) {
 	outcomes := make([]int, 12)
 	lat := make([]int, 12)
 	for i := range outcomes {
-		switch k := r.IntN(10); {
+		switch k := r.IntN(11); {
 		case k < 4:
 			outcomes[i] = 0
 		case k < 8:
 			outcomes[i] = 1
-		default:
+		case k < 10:
 			outcomes[i] = 2
+		default:
+			outcomes[i] = 3 // ignores its context: returns only when the harness ends the case
 		}
 		lat[i] = r.IntN(4)
 	}
@@ -699,6 +701,9 @@ func onceCase(c *mon.Case) {
 				// an error that wraps a cancellation (of something else) is an error like any other
 				oc.err = fmt.Errorf("fn-error-%d: %w", n, context.Canceled)
 			}
+		case 3:
+			<-endCase
+			oc.err = fmt.Errorf("fn-error-%d", n)
 		default:
 			select {
 			case <-ctx.Done():
@@ -780,6 +785,16 @@ func onceCase(c *mon.Case) {
 		c.Inconclusive("no quiescence")
 		return
 	}
+	// a caller whose own context ended gets context.Canceled even while the function (which may ignore its context) is still running
+	for _, cl := range cs {
+		if !cl.returned.Load() && (cl.cancelStamp.Load() != 0 || cl.timeout) {
+			if mon.QuiesceConfirmed(100*time.Millisecond, 10*time.Second) && !cl.returned.Load() {
+				c.Violate("lost-wakeup", "once-cancelled-caller-blocked", "caller %d is still blocked in Resolve in a quiescent process although its own context ended (cancelled at %d, deadline=%v) while the function is still running", cl.id, cl.cancelStamp.Load(), cl.timeout)
+				break
+			}
+		}
+	}
+	c.Count("cancelled_callers_checked_before_end", 1)
 	// blocked function calls (waiting for a context nobody cancels) are ended now
 	close(endCase)
 	if !mon.Quiesce(10 * time.Second) {
